@@ -311,7 +311,7 @@ def add_connection(u):
                C('C06.acct.new_registering.window_starts_at_20000', 'r.window == 20000'),
                C('C02.acct.new_registering.nothing_in_flight', 'r.in_flight_packets == 0 && r.packet_log@.len() == 0 && r.highest_acked_seq == i32::MIN'),
                'r.wf()', '!r.connected', 'r.phase is Registering', 'r.conn_id == conn_id', 'r.label == label',
-               'r.last_ack_or_rtt_sample_ms == 0', 'r.stall_latched_since_ms == 0', '!r.silence_pulled', '!r.stall_gated',
+               C('C13.acct.new_registering.starts_without_delivery_proof_or_stall_state', 'r.last_ack_or_rtt_sample_ms == 0 && r.stall_latched_since_ms == 0 && !r.silence_pulled && !r.stall_gated'),
                'r.batch_sender.queue.len() == 0',
            ]))
     F(u.fn(CONN, 'get_score', impl='SrtlaConnection', sub='select', props=('C03',), ret='r', requires=['0 <= self.window', 'self.batch_sender.wf()'], ensures=[
@@ -388,7 +388,7 @@ def add_connection(u):
     ]))
     F(u.fn(CONN, 'note_sent', impl='SrtlaConnection', sub='reconn', ensures=['*final(self) == (SrtlaConnection { last_sent: Some(now), ..*old(self) })']))
     F(u.fn(CONN, 'get_smooth_rtt_ms', impl='SrtlaConnection', sub='select', ret='r', ensures=['r == spec_srtt(self.rtt.kalman_rtt.x)']))
-    F(u.fn(CONN, 'get_rtt_min_ms', impl='SrtlaConnection', sub='select', ret='r', ensures=['r == self.rtt.rtt_min_ms']))
+    F(u.fn(CONN, 'get_rtt_min_ms', impl='SrtlaConnection', sub='select', ret='r', ensures=[C('C11.select.conn.get_rtt_min_ms_reads_the_documented_minimum', 'r == self.rtt.rtt_min_ms')]))
     F(u.fn(CONN, 'needs_rtt_measurement', impl='SrtlaConnection', sub='reconn', ret='r', ensures=[
         C('C14.reconn.conn.rtt_probe_due_only_when_none_outstanding_and_3s_old', 'r == (self.reconnection.connection_established_ms != 0 && self.connected && !self.rtt.waiting_for_keepalive_response && (self.rtt.last_rtt_measurement_ms == 0 || sub_sat(now_ms, self.rtt.last_rtt_measurement_ms) > 3000))')]))
     F(u.fn(CONN, 'needs_keepalive', impl='SrtlaConnection', sub='reconn', ret='r', ensures=[
